@@ -12,6 +12,7 @@ from fractions import Fraction
 
 _ATOMS = []          # id -> Atom
 _BY_KEY = {}         # structural key -> id
+_BY_FUNC = {}        # (func, number of args) -> [Atom]  (candidates of the semantic search)
 
 
 class Atom(object):
@@ -57,12 +58,15 @@ def atom(func, args=()):
     key = func if not args and func.startswith("$") else "%s(%s)" % (func, ",".join(_argkey(a) for a in args))
     if key in _BY_KEY:
         return _ATOMS[_BY_KEY[key]]
-    for a in _ATOMS:
-        if a.func == func and _args_equal(a.args, args):
-            _BY_KEY[key] = a.id
-            return a
+    bucket = _BY_FUNC.setdefault((func, len(args)), [])
+    if args:
+        for a in bucket:
+            if _args_equal(a.args, args):
+                _BY_KEY[key] = a.id
+                return a
     a = Atom(len(_ATOMS), func, args, key)
     _ATOMS.append(a)
+    bucket.append(a)
     _BY_KEY[key] = a.id
     return a
 
